@@ -15,7 +15,7 @@ import txdbus.client
 from txdbus import message, interface, introspection
 
 ACTIONS = {'EpFail': ('why',), 'EpOk': (), 'AuthOk': (), 'AuthRefused': (), 'HelloOk': (), 'HelloErr': (), 'Close': (), 'Quiet': (),
-           'IssueCall': ('k', 't'), 'ReplyCall': ('k',), 'ExpireCall': ('k',), 'CancelCall': ('k',), 'Register': ('x', 'w'), 'DropProxy': ('x',)}
+           'IssueCall': ('k', 't'), 'ReplyCall': ('k',), 'ExpireCall': ('k',), 'CancelCall': ('k',), 'Register': ('x', 'w'), 'DropProxy': ('x',), 'Unregister': ('x',), 'Reregister': ('x',)}
 OBS = ['tried', 'fired', 'nfired', 'call', 'timers', 'ran', 'late']
 KINDS = ['unix:path=/tmp/verif-sock-%d', 'unix:abstract=verif%d', 'tcp:host=h%d.example,port=%d',
          'nonce-tcp:host=n%d.example,port=%d,noncefile=/x']
@@ -140,7 +140,11 @@ class ConnDriver:
         self.proto.dataReceived(r.rawMessage)
 
     def do_HelloErr(self):
-        r = message.ErrorMessage('org.freedesktop.DBus.Error.LimitsExceeded', self.hello_serial, signature='s', body=['full'])
+        # with or without an explanatory text (an error reply need not carry a body)
+        if (self.attempts() + len(self.cbs)) % 2:
+            r = message.ErrorMessage('org.freedesktop.DBus.Error.LimitsExceeded', self.hello_serial)
+        else:
+            r = message.ErrorMessage('org.freedesktop.DBus.Error.LimitsExceeded', self.hello_serial, signature='s', body=['full'])
         self.proto.dataReceived(r.rawMessage)
 
     def do_Close(self):
@@ -200,8 +204,11 @@ class ConnDriver:
             if reason is not getattr(self, 'reason', None):
                 self.ran[x] += 100
             self.ran[x] += 1
+        self.cbfn = getattr(self, 'cbfn', {})
+        self.cbfn[x] = cb
         if w == 'conn':
             self.conn.notifyOnDisconnect(cb)
+            self.proxies[x] = self.conn
             return
         if w == 'explicit':
             iface = interface.DBusInterface('org.verif.Explicit', interface.Method('Ping'), noRegister=True)
@@ -219,6 +226,12 @@ class ConnDriver:
         assert got and not isinstance(got[0], failure.Failure), got
         got[0].notifyOnDisconnect(cb)
         self.proxies[x] = got[0]
+
+    def do_Unregister(self, x):
+        self.proxies[x].cancelNotifyOnDisconnect(self.cbfn[x])
+
+    def do_Reregister(self, x):
+        self.proxies[x].notifyOnDisconnect(self.cbfn[x])
 
     def do_DropProxy(self, x):
         del self.proxies[x]        # no reference cycles: the proxy is freed at once
@@ -351,7 +364,7 @@ def run(tier, seed):
                         new = [k for k in range(1, 5) if k not in issued]
                         out = [k for k in issued if drv.callres[k] == []]
                         unreg = [x for x in range(1, 6) if x not in regs]
-                        prox = [x for x, w in regs.items() if w in ('explicit', 'intro')]
+                        prox = [x for x, w in regs.items() if w in ('explicit', 'intro', 'off-explicit', 'off-intro')]
                         if r < 0.25 and new:
                             k = rng.choice(new)
                             issued.add(k)
@@ -374,7 +387,15 @@ def run(tier, seed):
                             x = rng.choice(prox)
                             regs[x] = 'dropped'
                             a = ('DropProxy', (x,))
-                        elif r < 0.9:
+                        elif r < 0.84 and [x for x, w in regs.items() if w in ('conn', 'explicit', 'intro')]:
+                            x = rng.choice([x for x, w in regs.items() if w in ('conn', 'explicit', 'intro')])
+                            regs[x] = 'off-' + regs[x]
+                            a = ('Unregister', (x,))
+                        elif r < 0.88 and [x for x, w in regs.items() if w.startswith('off-')]:
+                            x = rng.choice([x for x, w in regs.items() if w.startswith('off-')])
+                            regs[x] = regs[x][4:]
+                            a = ('Reregister', (x,))
+                        elif r < 0.94:
                             a = ('Close', ())
                             phase = 'closed'
                         else:
